@@ -3,6 +3,7 @@
    (any number of calls, any interleaving of critical sections, cancellations, wake-ups and
    release calls). *)
 From Util Require Import Common.Base Common.ListLemmas CSync.RWModel CSync.RWProofs CSync.MModel CSync.MProofs.
+From Util Require Import CSync.RWSpec CSync.MSpec CSync.MonCore CSync.RWProofsMon CSync.MProofsMon.
 
 (* RWMutex: at every reachable state at most one caller holds for writing at the API (between the
    return of Lock/TryLock and its first release call), and then nobody holds for reading *)
@@ -81,3 +82,42 @@ Example c01_example_mutex :
   let s := mrun [MCallLock; MSect 0; MCallLock; MSect 1; MCallTry; MSect 2] in
   cnt mapi (macts s) = 1 /\ cnt mblocked (macts s) = 1.
 Proof. vm_compute. split; reflexivity. Qed.
+
+(* ---------------- the monitors accept the models (ties RWSpec.mon / MSpec.mon_mutex to the proven models) ----------------
+   For EVERY event list (no bound): whenever the Spec-level step function that run_check_rwmutex / run_check_mutex use
+   (lstep hstep / lstep mhstep: the sync.Locker layer over the eager-schedule step, with the lockers state) accepts the
+   events, the monitors those checkers use (lmon mon / lmon mon_mutex: clauses (1,1) (1,2) (1,3) of C01 and (2,1)-(2,4) of
+   C02) report nothing on the model's own observations.  The models take no configuration: the statement holds for every
+   cfg.  rw_step/rw_mon/mu_step/mu_mon are abbreviations for exactly the two arguments of run_check in RWSpec.v / MSpec.v. *)
+Theorem c01_rwmutex_model_satisfies_monitors : forall evs,
+  monitor (lmon mon (@length mact)) 0 ([], lockers0) [] evs
+          (run_obs (lstep hstep (fun h => length (hmap h))) (hinit, lockers0) evs) = [].
+Proof. exact model_satisfies_monitors. Qed.
+Print Assumptions c01_rwmutex_model_satisfies_monitors.
+
+Theorem c01_rwmutex_model_run_check_clean : forall cfg evs,
+  length (run_obs (lstep hstep (fun h => length (hmap h))) (hinit, lockers0) evs) = length evs ->
+  run_check_rwmutex cfg evs (run_obs (lstep hstep (fun h => length (hmap h))) (hinit, lockers0) evs) = [].
+Proof. intros cfg evs Hl. exact (model_run_check_clean evs Hl cfg). Qed.
+Print Assumptions c01_rwmutex_model_run_check_clean.
+
+Theorem c01_mutex_model_satisfies_monitors : forall evs,
+  monitor (lmon mon_mutex (@length mact)) 0 ([], lockers0) [] evs
+          (run_obs (lstep mhstep (fun h => length (mhmap h))) (mhinit, lockers0) evs) = [].
+Proof. exact mutex_model_satisfies_monitors. Qed.
+Print Assumptions c01_mutex_model_satisfies_monitors.
+
+Theorem c01_mutex_model_run_check_clean : forall cfg evs,
+  length (run_obs (lstep mhstep (fun h => length (mhmap h))) (mhinit, lockers0) evs) = length evs ->
+  run_check_mutex cfg evs (run_obs (lstep mhstep (fun h => length (mhmap h))) (mhinit, lockers0) evs) = [].
+Proof. intros cfg evs Hl. exact (mutex_model_run_check_clean evs Hl cfg). Qed.
+Print Assumptions c01_mutex_model_run_check_clean.
+
+(* non-vacuity: a history with Locker events that the model accepts completely, and on which the checker is silent:
+   Locker.Lock(write) granted, Locker.Lock(read) blocks, Unlock(write) + its section wakes and grants the reader,
+   Unlock(read), Unlock(read) of the now empty read locker panics *)
+Example c01_example_model_history :
+  let evs := [[6; 1]; [3; 0]; [6; 0]; [3; 1]; [7; 1]; [3; 2]; [3; 1]; [7; 0]; [3; 3]; [7; 0]]%N in
+  let obss := run_obs (lstep hstep (fun h => length (hmap h))) (hinit, lockers0) evs in
+  length obss = length evs /\ last obss [] = [3; 3; 6; 6; 9]%N /\ run_check_rwmutex [] evs obss = [].
+Proof. vm_compute. repeat split; reflexivity. Qed.
